@@ -45,7 +45,7 @@ ASSUMPTIONS = [
 ]
 RULE = ("documents whose first heading is ATX / setext (closing hashes, leading spaces, multi-line setext), level 1 or 2, "
         "preceded or not by prose / recipe blocks / quoted headings, followed by further headings; titles that contain the serving phrase earlier with the identical spelling (and the phrase doubled), one- and two-character titles (letter, digit, astral), titles with 'for', "
-        "digits, punctuation, entities, non-ASCII, '%', inline markup, scaled-value braces; every documented phrase x "
+        "digits, punctuation, entities, non-ASCII, '%', inline markup, raw inline HTML that is not an element (comment, processing instruction, declaration, CDATA: no title, no count, plain rendering), scaled-value braces; a count of 0 (must be shown); every documented phrase x "
         "case variants (incl. U+017F, U+212A, U+0130/0131) x spacings (space, tab, NBSP, U+3000, several) x N (1 digit "
         "to 4301 digits, leading zeros) x trailing space; near-miss endings; a case is non-trivial when the document "
         "has a heading; distinct = distinct document text")
@@ -120,6 +120,15 @@ def oracle(spec: Dict[str, Any], res: Dict[str, Any]) -> Optional[str]:
         # no heading first / lower level / markup: no serving count (the title is not constrained by the text)
         if servings is not None:
             return f"serving count {servings} inferred although {spec['why_not']}"
+        if spec.get("raw_html"):
+            # raw inline HTML (comment, processing instruction, declaration, CDATA) is markup: no title either, and
+            # the heading is rendered exactly as plain CommonMark renders it
+            if title is not None:
+                return f"title {title!r} inferred although {spec['why_not']}"
+            import marko
+            m = re.search(r"<h1>.*?</h1>", marko.Markdown()(spec["doc"]), re.S)
+            if m is None or m.group(0) not in res["recipe"].render(1):
+                return f"heading with raw HTML is not rendered as plain CommonMark ({m.group(0) if m else None!r})"
         return None
     if spec.get("lenient"):
         return None
@@ -127,6 +136,9 @@ def oracle(spec: Dict[str, Any], res: Dict[str, Any]) -> Optional[str]:
         if title != spec["title"] or servings != spec["n"]:
             return (f"heading {spec['heading']!r}: expected title {spec['title']!r} and {spec['n']} servings, got "
                     f"{title!r} / {servings!r}")
+        if spec["n"] == 0:
+            # a count of zero is a count: it must be shown (scale 1 only; other scales are not meaningful for 0)
+            return header_shows_scaled_count(res["recipe"], 0, 1)
         if spec["n"] and spec["n"] < 10 ** 6:
             return header_shows_scaled_count(res["recipe"], spec["n"], 3) or \
                 header_shows_scaled_count(res["recipe"], spec["n"], 1)
@@ -264,6 +276,8 @@ SHORT_TITLES: List[Tuple[str, str]] = [("A", "A"), ("7", "7"), ("\U0001f355", "\
                                        ("x1", "x1"), ("\U0001f355\U0001f355", "\U0001f355\U0001f355"), ("42", "42"), ("z", "z")]
 TITLES += SHORT_TITLES
 PERCENT_TITLES = [("100% rye", "100% rye"), ("50%", "50%"), ("Rye (100%)", "Rye (100%)")]
+RAW_HTML_TITLES = ["Lentil soup <!-- v2 -->", "<!--x--> Soup", "Soup <?php x ?>", "Soup <!DOCTYPE x>", "Soup <![CDATA[x]]>",
+                   "Soup <!-- a --> and <!-- b -->", "<?x?>"]
 MARKUP_TITLES = ["*Spam*", "`code` pie", "[Spam](http://x)", "Spam <b>bold</b>", "Spam **and** eggs", "{2} eggs", "Eggs {1/2}",
                  "![img](a.png) cake", "<span>x</span>"]
 SPACINGS = [" ", " ", "  ", "\t", " \t ", "\xa0", " \xa0", "\u3000", "\u2003 ", "&nbsp;"]
@@ -368,7 +382,9 @@ def gen_doc(rng: random.Random, phrases: List[List[str]]) -> Tuple[str, Dict[str
         spec.update(lenient=True, title=None)
         tags.append("ending:undocumented-form")
     elif kind == "markup":
-        m = rng.choice(MARKUP_TITLES)
+        m = rng.choice(MARKUP_TITLES + RAW_HTML_TITLES)
+        if m in RAW_HTML_TITLES:
+            spec["raw_html"] = True
         ph = rng.choice(phrases)
         inline = m + " " + " ".join(ph) + " " + str(rng.randrange(1, 9))
         spec.update(captured=False, why_not="the heading contains markup or a scaled value")
@@ -402,6 +418,9 @@ def gen_doc(rng: random.Random, phrases: List[List[str]]) -> Tuple[str, Dict[str
     if rng.random() < 0.4:
         post += ["```recipe", "1 egg", "```", ""]
     doc = "\n".join(pre + lines + post)
+    if spec.get("raw_html") and (level != 1 or k in (2, 3)):
+        del spec["raw_html"]          # another reason / another heading decides: only the count is constrained
+    spec["doc"] = doc if spec.get("raw_html") else None
     spec["heading"] = inline[:200]
     spec["heading_plain"] = plain_full
     if any(src == s0 for s0, _ in ENTITY_LIKE_TITLES) and kind != "markup":
@@ -492,6 +511,27 @@ def suites(tier: str, seed: int) -> List[Suite]:
                         seen.add(doc)
                         ti.cases.append(make_case(doc, spec, ["systematic", "phrase-earlier-in-title",
                                                               "phrase:" + " ".join(ph)]))
+    # raw inline HTML that is not an element, in ATX and setext first headings, with every documented phrase
+    for ph in phrases:
+        for raw in RAW_HTML_TITLES:
+            for style in ("atx", "setext"):
+                inline = raw + " " + " ".join(ph) + " 4"
+                doc = ("# " + inline + "\n\nProse.\n") if style == "atx" else (inline + "\n===\n\nProse.\n")
+                spec = {"captured": False, "why_not": "the heading contains raw HTML", "raw_html": True, "doc": doc,
+                        "phrase": None, "percent": False, "heading": inline, "heading_plain": inline}
+                if doc not in seen and structure_ok(doc, spec):
+                    seen.add(doc)
+                    ti.cases.append(make_case(doc, spec, ["systematic", "title:raw-html", "style:" + style]))
+    # a count of zero
+    for ph in phrases:
+        for digits in ("0", "00"):
+            inline = "Plain rice " + " ".join(ph) + " " + digits
+            doc = "# " + inline + "\n\nProse.\n"
+            spec = {"captured": True, "phrase": " ".join(ph), "n": 0, "title": "Plain rice", "percent": False,
+                    "huge": False, "heading": inline, "heading_plain": inline}
+            if doc not in seen and structure_ok(doc, spec):
+                seen.add(doc)
+                ti.cases.append(make_case(doc, spec, ["systematic", "count-zero", "phrase:" + " ".join(ph)]))
     ti.cases.append(make_case("Just prose, no heading.\n", {"captured": False, "why_not": "there is no heading",
                                                              "percent": False, "phrase": None}, ["no-heading"]))
     for _ in range(n):
